@@ -664,3 +664,202 @@ func checkAttemptDeadlineFresh(c *Ctx) {
 		c.anchorMissing("deadline call in reusableConn.exchange")
 	}
 }
+
+// hstore: a store into a field of a message that happens in a NEW helper of the handler: the helper is called from h
+// with the message as an argument and stores into a field of the corresponding parameter (`finishReply(resp, opt)`:
+// RA and the OPT append for both pack sites). call is the call in h, st the store in the helper.
+type hstore struct {
+	call *ssa.Call
+	g    *ssa.Function
+	st   *ssa.Store
+	key  string
+	idx  int // parameter / argument index of the message
+}
+
+func helperFieldStores(h *ssa.Function, msg ssa.Value) []hstore {
+	var out []hstore
+	eachInstr(h, func(in ssa.Instruction) {
+		ci, ok := in.(*ssa.Call)
+		if !ok {
+			return
+		}
+		g := staticCallee(ci)
+		if g == nil || !isNewHelper(g) {
+			return
+		}
+		if _, asValue := callSitesOf(g); asValue {
+			return
+		}
+		for j, a := range ci.Call.Args {
+			if a != msg || j >= len(g.Params) {
+				continue
+			}
+			eachInstr(g, func(x ssa.Instruction) {
+				st, ok := x.(*ssa.Store)
+				if !ok || fieldBase(st.Addr) != ssa.Value(g.Params[j]) {
+					return
+				}
+				if k, okk := fieldKey(st.Addr); okk {
+					out = append(out, hstore{ci, g, st, k, j})
+				}
+			})
+		}
+	})
+	return out
+}
+
+// unconditional: the store runs on every path through its function (its block dominates every return).
+func (s hstore) unconditional() bool {
+	for _, r := range returnsOf(s.g) {
+		if !s.st.Block().Dominates(r.Block()) {
+			return false
+		}
+	}
+	return true
+}
+
+// actual maps a value of the helper to the caller's: a parameter becomes the argument, constants stay.
+func (s hstore) actual(v ssa.Value) ssa.Value {
+	for i, prm := range s.g.Params {
+		if v == ssa.Value(prm) && i < len(s.call.Call.Args) {
+			return s.call.Call.Args[i]
+		}
+	}
+	return v
+}
+
+// Round 13.
+
+// checkDohBodyReadWhole (C01-R11): the DoH exchange takes the reply from the response body only with calls that read it
+// whole (ReadFrom / io.ReadAll / io.ReadFull / io.Copy): a partial read (io.ReadAtLeast, a bare Read) into a pooled
+// buffer of the announced size leaves the tail of the buffer as the pool handed it out — another query's reply.
+func checkDohBodyReadWhole(c *Ctx) {
+	n := 0
+	for _, f := range c.P.funcsIn(relDoh) {
+		fn := f
+		eachInstr(f, func(in ssa.Instruction) {
+			ci, ok := in.(*ssa.Call)
+			if !ok {
+				return
+			}
+			// does the call get the response body?
+			body := false
+			for _, a := range ci.Call.Args {
+				v := a
+				for {
+					if mi, ok := v.(*ssa.MakeInterface); ok {
+						v = mi.X
+						continue
+					}
+					if chg, ok := v.(*ssa.ChangeInterface); ok {
+						v = chg.X
+						continue
+					}
+					break
+				}
+				if k, ok := loadedField(v); ok && k == "net/http.Response.Body" {
+					body = true
+				}
+			}
+			if ci.Call.IsInvoke() {
+				if k, ok := loadedField(ci.Call.Value); ok && k == "net/http.Response.Body" && ci.Call.Method.Name() == "Read" {
+					n++
+					c.fail("doh-body-read-whole@"+funcName(fn), instrPos(in), "the response body is read with a bare Read: a short read returns a partial reply")
+				}
+				return
+			}
+			if !body {
+				return
+			}
+			cn := callName(ci)
+			switch cn {
+			case "(*bytes.Buffer).ReadFrom", "io.ReadAll", "io.ReadFull", "io.Copy", "io.CopyN", "io.LimitReader":
+				n++
+				c.ok("doh-body-read-whole@"+funcName(fn), instrPos(in), "the body is read with %s", cn)
+			case "io.ReadAtLeast":
+				n++
+				c.fail("doh-body-read-whole@"+funcName(fn), instrPos(in), "the response body is read with io.ReadAtLeast: the call returns once the minimum is in, the rest of the buffer it was given keeps what the pool handed out (an earlier reply), the caller gets its own header with another query's answer")
+			}
+		})
+	}
+	if n == 0 {
+		c.anchorMissing("read of the DoH response body")
+	}
+}
+
+// checkDohNoHTTPClient (C18-R7): the DoH upstream sends its request with the RoundTripper it was given; an http.Client
+// on top of it follows redirects — to a host name (SNI, Host header) the server chose, over the configured dial address.
+func checkDohNoHTTPClient(c *Ctx) {
+	rt := 0
+	bad := ""
+	var badPos = token.NoPos
+	for _, f := range c.P.funcsIn(relDoh) {
+		eachInstr(f, func(in ssa.Instruction) {
+			ci, ok := in.(ssa.CallInstruction)
+			if !ok {
+				return
+			}
+			cm := ci.Common()
+			if cm.IsInvoke() && cm.Method.Name() == "RoundTrip" {
+				rt++
+			}
+			if n := callNameCommon(cm); strings.HasPrefix(n, "(*net/http.Client).") || n == "net/http.Get" || n == "net/http.Post" {
+				bad, badPos = n, instrPos(in)
+			}
+		})
+	}
+	c.check(bad == "" && rt > 0, "doh-sends-with-roundtripper", badPos, "requests go out through RoundTrip of the given transport only",
+		"the DoH upstream sends with "+bad+": net/http's client follows redirects, the next connection carries the server name and Host of the redirect target instead of the configured URL host")
+}
+
+// checkNoTypedNilExchanger (C09-R6): a function that returns the ReservedExchanger interface never wraps a pointer
+// that can be nil: `var e *T; if room { e = … }; return e` yields a non-nil interface around a nil pointer, the
+// callers' `== nil` tests ("this connection is full, try the next / dial") never see the refusal.
+func checkNoTypedNilExchanger(c *Ctx) {
+	n := 0
+	for _, f := range c.P.funcsIn(relTransport) {
+		res := f.Signature.Results()
+		if res.Len() == 0 {
+			continue
+		}
+		fn := f
+		for _, ret := range returnsOf(f) {
+			rv := returnedValues(ret)
+			for i, v := range rv {
+				if i >= res.Len() || !strings.HasSuffix(res.At(i).Type().String(), "transport.ReservedExchanger") {
+					continue
+				}
+				mi, ok := v.(*ssa.MakeInterface)
+				if !ok {
+					continue
+				}
+				n++
+				canBeNil := false
+				var walk func(x ssa.Value, d int)
+				walk = func(x ssa.Value, d int) {
+					if d > 6 {
+						return
+					}
+					switch y := x.(type) {
+					case *ssa.Phi:
+						for _, e := range y.Edges {
+							walk(e, d+1)
+						}
+					case *ssa.Const:
+						if y.IsNil() {
+							canBeNil = true
+						}
+					case *ssa.ChangeType:
+						walk(y.X, d+1)
+					}
+				}
+				walk(mi.X, 0)
+				c.check(!canBeNil, "no-typed-nil-exchanger@"+funcName(fn), instrPos(ret), "the exchanger wrapped into the interface is never a nil pointer",
+					"a nil "+shortName(mi.X.Type().String())+" can be returned inside a non-nil ReservedExchanger: the callers' nil tests do not see the refusal, a full connection is used instead of dialling another one")
+			}
+		}
+	}
+	if n == 0 {
+		c.anchorMissing("functions returning a ReservedExchanger built from a pointer")
+	}
+}
